@@ -602,6 +602,40 @@ def openpty (fixed named tio ws : Bool) : Script :=
       fin0)
     err
 
+/-! ### io_uring (rusl): set-up, and `Drop` as an operation of its own
+
+The ring's mappings are not descriptors: `mmap` / `munmap` carry no effect on the descriptor table here (that every
+mapping is unmapped exactly once with its own length is C18's `setup_drop_balanced`).  The code ignores the result of
+`munmap` and `close` on all of these paths. -/
+
+def munmapThen (k : Script) : Script := .sys "munmap" .none k k
+
+def munmapN : Nat → Script → Script
+  | 0, k => k
+  | n + 1, k => munmapThen (munmapN n k)
+
+/-- `rusl::io_uring::setup_io_uring`: `io_uring_setup` (ring fd = var 0), the submission ring's mapping, the completion
+    ring's unless the kernel reported IORING_FEAT_SINGLE_MMAP, the entries' mapping; a failing `mmap` returns through
+    `SetupGuard::drop` (unmap what was mapped, close the ring fd).  The null checks between the mappings cannot fail
+    behind a successful `mmap` and return through the same guard. -/
+def ioUringSetup : Script :=
+  .sys "io_uring_setup" (.opens 0)
+    (.sys "mmap" .none
+      (.step "kernel reports IORING_FEAT_SINGLE_MMAP"
+        (.sys "mmap" .none (ok [0]) (munmapN 1 (closeThen 0 err)))
+        (.sys "mmap" .none
+          (.sys "mmap" .none (ok [0]) (munmapN 2 (closeThen 0 err)))
+          (munmapN 1 (closeThen 0 err))))
+      (closeThen 0 err))
+    err
+
+/-- `impl Drop for IoUring`, the operation `drop(ring)`: owns the ring fd (var 0) on entry; unmaps the entries and the
+    submission ring, the completion ring when it has a mapping of its own, closes the ring fd; hands out nothing -/
+def ioUringDrop : Script :=
+  .step "completion ring shares the submission ring's mapping"
+    (munmapN 2 (closeThen 0 (ok [])))
+    (munmapN 3 (closeThen 0 (ok [])))
+
 /-! ### Command::spawn -/
 
 inductive Stdio where
@@ -703,7 +737,8 @@ def cur : List (String × List Var × Script) := [
   ("pipe2", [], pipe2), ("epoll_create", [], epollCreate), ("epoll_use", [], epollUse),
   ("getpwuid", [], getpwuid true),
   ("openpty", [], openpty true false false false), ("openpty_named", [], openpty true true false false),
-  ("openpty_tio", [], openpty true false true true)]
+  ("openpty_tio", [], openpty true false true true),
+  ("io_uring_setup", [], ioUringSetup), ("io_uring_drop", [0], ioUringDrop)]
 
 /-- the same operations before their repair -/
 def old : List (String × List Var × Script) := [
